@@ -12,7 +12,7 @@ import vf
 SPEC = {
     "uses_gen": False,
     "cmd": "c19",
-    "budget": (150, 1200),
+    "budget": (100, 1200),
     "header": "From Coq Require Import List String.\nImport ListNotations.\nFrom Sky Require Import Base.Uint Model.WalletService.\nOpen Scope string_scope. Open Scope list_scope. Open Scope Z_scope.",
     "corr": "C19_corr.v",
     "prop": "C19_prop.v",
